@@ -244,15 +244,20 @@ PROPS = {
     },
     "C11": {
         "nt_rule": "async3",
-        "level": "other", "module": "Resolvo.Props.C10", "theorems": ["Resolvo.C10.req_future_starts_every_version_set", "Resolvo.MDet.pollChildren_started", "Resolvo.MDet.pollChild_started"],
+        "level": "proof", "module": "Resolvo.Props.C10",
+        "theorems": ["Resolvo.C10.quiescent_every_future_started", "Resolvo.MDet.asyncStep_inv", "Resolvo.MDet.reach_inv", "Resolvo.MDet.pollTask_spec",
+                     "Resolvo.C10.req_future_starts_every_version_set", "Resolvo.MDet.pollChildren_started", "Resolvo.MDet.pollChild_started"],
         "families": [("async", {"quick": 8000, "thorough": 150000}), ("reuse-async", {"quick": 4000, "thorough": 80000}), ("async-cf", {"quick": 4000, "thorough": 80000}), ("cancel-async", {"quick": 6000, "thorough": 100000})],
-        "explanation": "MODEL + TIE: as C10 - the async encoder model reproduces the set of outstanding provider requests at every quiescent point of the real solver exactly (`pending ...` events compared for equality under the same completion order), so a change that serialises independent requests changes the pending sets and breaks the correspondence. "
-                       "ORACLE on the implementation's own log: c11Check requires every get_candidates request implied by dependency information already received (the root's, and that of every solvable whose get_dependencies has completed) to be outstanding or answered at every quiescent point - in particular a root with k requirements on distinct packages has k candidate requests in flight at the first quiescent point. PROVED (one future, all universes/states): one poll of the future of a requirement starts every version set of it - finished, request issued, listening, or parked on a filter/sort gate (req_future_starts_every_version_set). The run-level statement (every pushed future is polled before the executor sees Pending) is checked per run through the pending sets.",
+        "explanation": "PROVED (Lean, model of Encoder::encode with a suspending provider, all universes / problems / solver states / completion orders): one step of the encoder loop (pending_futures.next() + callback) preserves the invariant that every future pushed so far is still in the ready queue or has been started (asyncStep_inv), hence in every reachable state an empty ready queue - the executor is about to see Pending - means every pushed future has been started: its provider request is outstanding, or it listens to a request in flight, or it is parked on a filter/sort gate (quiescent_every_future_started); one poll of a requirement's future starts every version set of it (req_future_starts_every_version_set): no request waits for the answer to another one. "
+                       "TIE: the model is compared with the real solver under the same completion order for exact equality of the set of outstanding requests at every quiescent point (`pending ...` events), the provider call log, and the solver history (FIFO / LIFO / seeded random schedules, also with asynchronous filter/sort and under cancellation). "
+                       "ORACLE on the implementation's own log: c11Check requires every get_candidates request implied by dependency information already received to be outstanding or answered at every quiescent point. "
+                       "NOT PROVED: that the futures pushed by the callbacks are exactly the requests `implied by the information received` (read off on_dependencies_available; checked per run by c11Check); real multi-threaded executors are outside the model.",
+        "assumptions": ["single-threaded executor that wakes a task only when the future it is parked on completes"],
     },
     "C13": {
         "nt_rule": "multi",
         "level": "proof", "module": "Resolvo.Props.C13", "theorems": ["Resolvo.C13.each_valid", "Resolvo.C13.each_verdict"],
-        "families": [("reuse", {"quick": 5000, "thorough": 100000}), ("reuse-async", {"quick": 4000, "thorough": 80000})],
+        "families": [("reuse", {"quick": 8000, "thorough": 100000}), ("reuse-async", {"quick": 4000, "thorough": 80000})],
         "explanation": "PROVED: in every history of solves on one solver of the checked model (any problems, any outcomes incl. Cancelled and Unsolvable, any cache contents) every returned solution is valid and supported and every Unsolvable verdict is sound. TIE: exact correspondence of whole sync histories (results, solution orders, call logs with polls, solver histories) between MDet and the real solver. CHECKED PER RUN: no refetch of obtained metadata across solves, termination/no deadlock after cancellation with requests in flight (async). NOT PROVED: checkFailed never occurs; termination.",
     },
     "C12": {
